@@ -1,6 +1,6 @@
 (** C20 — lemmas: the checkers of Spec/C20.v reflect its predicates, and the
-    host model (Model/Config.v) meets the specification on every valid
-    configuration, every name (list), every host environment and every world. *)
+    denv model (Model/Config.v) meets the specification on every valid
+    configuration, every name (list), every denv environment and every world. *)
 From Coq Require Import Lia.
 From Verif.Base Require Import Prelude Json Decimal HostTypes.
 From Verif.Spec Require Import C20.
@@ -322,7 +322,7 @@ Qed.
 
 Section Host.
   Variable answers : str -> bool.
-  Variable host : envt.
+  Variable denv : envt.
 
   Lemma valid_command_nonempty : forall sv, valid_server sv = true -> cfg_command sv <> [].
   Proof.
@@ -332,7 +332,7 @@ Section Host.
     unfold cfg_command, jfield. destruct (assoc k_command m) as [[| | | |[|c s]| |]|]; try discriminate.
   Qed.
 
-  Lemma spawn_loaded_spec : forall sv, Spec_launch (default_env host) sv (spawn host (loaded_params sv)).
+  Lemma spawn_loaded_spec : forall sv, Spec_launch denv sv (spawn denv (loaded_params sv)).
   Proof.
     intro sv. unfold Spec_launch, spawn, loaded_params; simpl. split; [reflexivity|].
     unfold cfg_env. destruct (jfield k_env sv) as [[| | | | | |m]|]; simpl; try apply env_equiv_refl.
@@ -340,8 +340,8 @@ Section Host.
   Qed.
 
   Lemma connect_loaded : forall sv, valid_server sv = true ->
-    connect answers host (DParams (loaded_params sv)) =
-    ([Proc (spawn host (loaded_params sv)) true], if answers (cfg_command sv) then 1 else 0).
+    connect answers denv (DParams (loaded_params sv)) =
+    ([Proc (spawn denv (loaded_params sv)) true], if answers (cfg_command sv) then 1 else 0).
   Proof.
     intros sv Hv. unfold connect, stdio_client. simpl p_command.
     destruct (cfg_command sv) eqn:E; [exfalso; eapply valid_command_nonempty; eauto|].
@@ -355,8 +355,8 @@ Section Host.
   Proof. intros [| |cfg] n ns; simpl; auto. rewrite app_nil_r. reflexivity. Qed.
 
   Lemma runner_one_spec : forall src name, src_valid src = true ->
-    Forall2 (Spec_proc (default_env host)) (requested src [name]) (fst (runner_one answers host src name))
-    /\ snd (runner_one answers host src name) =
+    Forall2 (Spec_proc denv) (requested src [name]) (fst (runner_one answers denv src name))
+    /\ snd (runner_one answers denv src name) =
        Z.of_nat (length (filter (fun sv => answers (cfg_command sv)) (requested src [name]))).
   Proof.
     intros [| |cfg] name Hv; simpl in *.
@@ -372,22 +372,22 @@ Section Host.
   Qed.
 
   Lemma cli_is_runner_one : forall src name,
-    cli answers host src name =
-    RunObs (fst (runner_one answers host src name)) (snd (runner_one answers host src name))
+    cli answers denv src name =
+    RunObs (fst (runner_one answers denv src name)) (snd (runner_one answers denv src name))
     \/ (exists d, load_config src name = Ok d /\ match d with DTuple _ _ => False | _ => True end).
   Proof.
     intros src name. unfold cli, runner_one.
     destruct (load_config src name) as [d|e]; [|left; reflexivity].
     destruct d; try (right; eexists; split; [reflexivity|exact I]).
-    left. destruct (connect answers host d1). reflexivity.
+    left. destruct (connect answers denv d1). reflexivity.
   Qed.
 
   Lemma cli_spec : forall src name,
-    Spec_run answers (default_env host) src [name] (cli answers host src name).
+    Spec_run answers denv src [name] (cli answers denv src name).
   Proof.
     intros src name Hv.
-    assert (E : cli answers host src name =
-                RunObs (fst (runner_one answers host src name)) (snd (runner_one answers host src name))).
+    assert (E : cli answers denv src name =
+                RunObs (fst (runner_one answers denv src name)) (snd (runner_one answers denv src name))).
     { destruct (cli_is_runner_one src name) as [E|[d [Hd Hshape]]]; [exact E|].
       destruct src as [| |cfg]; [cbv in Hd; discriminate|cbv in Hd; discriminate|].
       rewrite (load_config_valid _ name Hv) in Hd.
@@ -396,7 +396,7 @@ Section Host.
   Qed.
 
   Lemma runner_spec : forall src names,
-    Spec_run answers (default_env host) src names (runner answers host src names).
+    Spec_run answers denv src names (runner answers denv src names).
   Proof.
     intros src names Hv. unfold runner. simpl.
     induction names as [|n ns IH].
@@ -412,15 +412,15 @@ Section Host.
       exactly as configured, which receives initialize; success iff it answers. *)
   Lemma cli_exact : forall cfg name sv,
     valid_config cfg = true -> server_of cfg name = Some sv ->
-    exists l, cli answers host (SrcJson cfg) name
+    exists l, cli answers denv (SrcJson cfg) name
               = RunObs [Proc l true] (if answers (cfg_command sv) then 1 else 0)
               /\ l_argv l = cfg_command sv :: cfg_args sv
-              /\ env_equiv (l_env l) (effective_env (default_env host) (cfg_env sv)).
+              /\ env_equiv (l_env l) (effective_env denv (cfg_env sv)).
   Proof.
     intros cfg name sv Hv Hs.
     destruct (cli_spec (SrcJson cfg) name Hv) as [H1 H2].
     simpl requested in H1, H2. rewrite Hs in H1, H2. simpl in H1, H2.
-    destruct (cli answers host (SrcJson cfg) name) as [ps n]; simpl in *.
+    destruct (cli answers denv (SrcJson cfg) name) as [ps n]; simpl in *.
     inversion H1 as [|sv' p svs ps' [[Ha He] Hi] Hrest]; subst. inversion Hrest; subst.
     destruct p as [l i]; simpl in *; subst. exists l. repeat split; auto.
     destruct (answers (cfg_command sv)); reflexivity.
@@ -428,18 +428,18 @@ Section Host.
 
 
   (** Configuration errors launch nothing, whatever the entry point. *)
-  Lemma run_nothing : forall denv src names o,
-    Spec_run answers denv src names o -> src_valid src = true -> requested src names = [] ->
+  Lemma run_nothing : forall de src names o,
+    Spec_run answers de src names o -> src_valid src = true -> requested src names = [] ->
     o = RunObs [] 0.
   Proof.
-    intros denv src names o H Hv Hr. destruct (H Hv) as [H1 H2]. rewrite Hr in H1, H2.
+    intros de src names o H Hv Hr. destruct (H Hv) as [H1 H2]. rewrite Hr in H1, H2.
     destruct o as [ps n]; simpl in *. inversion H1; subst. reflexivity.
   Qed.
 
   Lemma errors_launch_nothing : forall src names,
     src_valid src = true -> requested src names = [] ->
-    runner answers host src names = RunObs [] 0
-    /\ forall name, In name names -> cli answers host src name = RunObs [] 0.
+    runner answers denv src names = RunObs [] 0
+    /\ forall name, In name names -> cli answers denv src name = RunObs [] 0.
   Proof.
     intros src names Hv Hr. split.
     - eapply run_nothing; eauto. apply runner_spec.
